@@ -342,6 +342,49 @@ def Good (c : OpCall) : Prop :=
 /-- The output of the model of `ControlFlowTransformer` on `root`. -/
 def cfOutput (env : Env) (nm : Naming.Namer) (root : Stmt) : ParsedOutput := (transform env nm root).1
 
+/-- The callbacks read and write the state only through the declared names: every simple state variable is declared
+`global` / `nonlocal` in the body function and in the `orelse` / `extra_test` function (the `test` function of a
+`while_stmt` only reads: `whileTest`), so an assignment to it inside them reaches the caller-visible variable. -/
+def CallbacksDeclare (c : OpCall) : Prop :=
+  ∃ ts, setterTargets c = some ts ∧
+    ∀ t ∈ ts, ∀ i s ctx, t = Expr.name i s ctx → BlockVars.isComposite s = false →
+      s ∈ declaredNames c.body.body ∧
+      (c.kind ≠ .whileStmt → ∀ f, c.second = some f → s ∈ declaredNames f.body)
+
+/-- The first `nouts` state entries of an `if_stmt` are EXACTLY the outputs: the tuple is `_get_block_vars` of one `if`
+node, and position `i` is below `nouts` iff the variable there is an output (`BlockVars.isOutput`: composite, or live out,
+or not live in — the last case being the names the enclosing function declares `global`/`nonlocal`). -/
+def OutputsFirst (env : Env) (c : OpCall) : Prop :=
+  c.kind = .ifStmt → ∃ (fs : FnScope) (id : Nat) (r : BlockVars.Result),
+    r = env.blockVars fs id ((env.scope id "BODY_SCOPE").bound ++ (env.scope id "ORELSE_SCOPE").bound) ∧
+    c.names = r.scopeVars.map strConst ∧ natConst? c.last = some r.nouts ∧ r.nouts ≤ c.names.length ∧
+    ∀ (i : Nat) (v : String), r.scopeVars[i]? = some v →
+      (i < r.nouts ↔ BlockVars.isOutput (env.names id "LIVE_VARS_IN") (env.names id "LIVE_VARS_OUT") v = true)
+
+/-- **The contract handed to a third-party operator implementation**, for one emitted call of any of the three operators. -/
+structure OperatorContract (env : Env) (L : List SourceLoop) (c : OpCall) : Prop where
+  /-- `len(symbol_names) = len(get_state()) = number of targets of set_state`; `set_state` takes one argument -/
+  lengths : Lengths c
+  /-- position by position: name `'s'`, getter element and setter target denote the variable `qnOf s` -/
+  positions : Positions c
+  /-- no variable twice -/
+  distinct : Distinct c
+  /-- getter 0 / setter 1 / body 0 (`for`: 1) / orelse, test, extra_test 0 plain positional parameters -/
+  arity : Arity c
+  /-- every element of the getter's tuple is a plain (possibly `ldu`-guarded) read -/
+  getterPure : GetterPure c
+  /-- the setter assigns the enclosing function's variables (declares them `global`/`nonlocal`) -/
+  setterDeclares : SetterDeclares c
+  /-- so do the body / orelse / extra_test functions -/
+  callbacksDeclare : CallbacksDeclare c
+  /-- `0 ≤ nouts ≤ len(symbol_names)` -/
+  nouts : Nouts c
+  /-- the first `nouts` entries are exactly the outputs -/
+  outputsFirst : OutputsFirst env c
+  /-- `opts` = exactly the directive keywords annotated on THAT loop (+ `iterate_names` = its unparsed target for `for`),
+  and the body / test function is that loop's -/
+  opts : OptsOk env L c
+
 /-! ## Decision procedures -/
 
 def strConstB (e : Expr) : Option String :=
@@ -418,16 +461,22 @@ def contractOk (g : ParsedOutput) : Bool :=
 
 /-! ## Store semantics of the state functions
 
-A store maps a *location* to its value, `none` = unbound name / missing attribute or key.  Locations are
-qualified names whose subscripts are resolved: `dd[x]` with `x = 0` is the location `dd[0]` (`loc`), so an entry
-whose subscript variable is itself rewritten by the same tuple assignment, and two entries that alias
-(`dd[x]`, `dd[0]`), behave as in Python.  What the semantics does NOT model: object identity of container
-variables (`o.a` is a location of the *name* `o`; rebinding `o` in the same tuple, or `o is p`, is outside it).
+The caller-visible store: a map from *locations* to values, `none` = unbound name / missing attribute or key.
+Locations are
+  * `.sym x`                      the cell of the variable `x` (local, closure cell or module global — whichever the
+                                  enclosing function's scope gives it; the getter reads it, the setter writes it when it
+                                  declares `x` `global`/`nonlocal`, otherwise the setter only writes a local of its own);
+  * `<obj r>.a`, `<obj r>[k]`     a slot of the heap object `r`: composite symbols are resolved by EVALUATING their base
+                                  chain (`resolve`), so `o.a` and `p.a` alias when `o is p`, rebinding `o` moves `o.a`,
+                                  and `dd[x]` with `x = 0` is `dd[0]`.
+A base that holds the `Undefined` placeholder answers every attribute / item READ with itself
+(`Undefined.__getattribute__`, `__getitem__`) and refuses every WRITE (`__slots__`): `Res.undefBase`.
+A base that is unbound, missing, or not an object makes the access raise (`Res.fail`): `ag__.ldu` turns that into
+`Undefined(label)` on the read side; on the write side the tuple assignment raises.
 
-The getter evaluates its tuple left to right: a bare read of an unbound variable raises (`none`), a guarded read
-(`ag__.ldu`) of a missing one yields `Undefined(label)`; an element that is not a plain read is an *unknown
-effect*.  The setter is one tuple assignment `t1, ..., tn = vs`: arity mismatch raises before any target is
-written; targets are assigned left to right, each location resolved when it is assigned. -/
+The getter evaluates its tuple left to right (a bare read of an unbound variable raises: `none`); an element that is not a
+plain read is an *unknown effect*.  The setter is one tuple assignment `t1, ..., tn = vs`: arity mismatch raises before
+any target is written; targets are assigned left to right, each resolved when it is assigned. -/
 
 inductive Val where
   | int (n : Int)
@@ -447,27 +496,59 @@ def valLit : Val → QN
   | .obj n => .lit "obj" (toString n)
   | .undef l => .lit "undef" l
 
+def objLit (r : Nat) : QN := .lit "obj" (toString r)
+
 /-- A subscript: a variable is replaced by its current value (`none`: unbound), anything else is taken literally. -/
 def resolveIdx (σ : Store) : QN → Option QN
   | .sym k => (σ (.sym k)).map valLit
   | i => some i
 
-/-- The location an access path denotes in `σ`. -/
-def loc (σ : Store) : QN → Option QN
-  | .sym s => some (.sym s)
-  | .lit k r => some (.lit k r)
-  | .attr b a => (loc σ b).map (.attr · a)
-  | .sub b i =>
-    match loc σ b, resolveIdx σ i with
-    | some b', some i' => some (.sub b' i')
-    | _, _ => none
+/-- Where an access path leads. -/
+inductive Res where
+  | slot (l : QN)             -- a location of the store
+  | undefBase (v : Val)       -- the base holds the Undefined placeholder `v`: reads give `v`, writes raise
+  | fail                      -- the access raises (unbound / missing / non-object base, unbound index)
+  deriving DecidableEq, Repr, Inhabited
 
-/-- The variables whose value determines the location of an access path. -/
-def indexSyms : QN → List String
+def Res.read (σ : Store) : Res → Option Val
+  | .slot l => σ l
+  | .undefBase v => some v
+  | .fail => none
+
+/-- Resolve an access path by evaluating its base chain in `σ`. -/
+def resolve (σ : Store) : QN → Res
+  | .sym s => .slot (.sym s)
+  | .lit k r => .slot (.lit k r)
+  | .attr b a =>
+    match (resolve σ b).read σ with
+    | some (.obj r) => .slot (.attr (objLit r) a)
+    | some (.undef l) => .undefBase (.undef l)
+    | _ => .fail
+  | .sub b i =>
+    match (resolve σ b).read σ with
+    | some (.obj r) =>
+      match resolveIdx σ i with
+      | some i' => .slot (.sub (objLit r) i')
+      | none => .fail
+    | some (.undef l) => .undefBase (.undef l)
+    | _ => .fail
+
+def Res.slots : Res → List QN
+  | .slot l => [l]
+  | _ => []
+
+/-- The locations READ while resolving an access path (base cells / slots and subscript variables). -/
+def reads (σ : Store) : QN → List QN
   | .sym _ => []
   | .lit _ _ => []
-  | .attr b _ => indexSyms b
-  | .sub b i => (match i with | .sym k => [k] | _ => []) ++ indexSyms b
+  | .attr b _ => reads σ b ++ (resolve σ b).slots
+  | .sub b i => reads σ b ++ (resolve σ b).slots ++ (match i with | .sym k => [.sym k] | _ => [])
+
+/-- The location a path denotes, when it denotes one. -/
+def loc (σ : Store) (q : QN) : Option QN :=
+  match resolve σ q with
+  | .slot l => some l
+  | _ => none
 
 def labelStr (e : Expr) : String :=
   match e with
@@ -475,7 +556,7 @@ def labelStr (e : Expr) : String :=
   | _ => ""
 
 def readEntry (σ : Store) (en : Entry) : Option Val :=
-  match (loc σ en.qn).bind σ with
+  match (resolve σ en.qn).read σ with
   | some v => some v
   | none => if en.guarded then some (.undef (labelStr en.label)) else none
 
@@ -513,42 +594,89 @@ def assignAll : List QN → List Val → Store → Store
   | q :: qs, v :: vs, σ => assignAll qs vs (update σ q v)
   | _, _, σ => σ
 
-/-- Assign the targets left to right, resolving each when it is assigned (`none`: an index variable is unbound). -/
+/-- Assign the targets left to right, resolving each when it is assigned (`none`: the assignment raises). -/
 def assignSeq : List QN → List Val → Store → Option Store
   | q :: qs, v :: vs, σ =>
-    match loc σ q with
-    | some l => assignSeq qs vs (update σ l v)
-    | none => none
+    match resolve σ q with
+    | .slot l => assignSeq qs vs (update σ l v)
+    | _ => none
   | _, _, σ => some σ
 
 /-- `t1, ..., tn = vs`. -/
 def setS (qs : List QN) (vs : List Val) (σ : Store) : Option Store :=
   if qs.length = vs.length then assignSeq qs vs σ else none
 
+/-- The cell a simple target of the setter writes: the caller-visible variable when the setter declares the name
+`global` / `nonlocal`, a local variable of the setter itself otherwise. -/
+def setterTarget (declared : List String) : QN → QN
+  | .sym s => if declared.contains s || BlockVars.isComposite s then .sym s else .sym ("set_state.<locals>." ++ s)
+  | q => q
+
 def runSetter (c : OpCall) (vs : List Val) (σ : Store) : Option Store :=
   match setterTargets c with
   | some ts => match ts.mapM exprQN with
-    | some qs => setS qs vs σ
+    | some qs => setS (qs.map (setterTarget (declaredNames c.setter.body))) vs σ
     | none => none
   | none => none
 
-/-- The finding class `missing_composite_written_back`: the state tuple has a guarded (composite) entry that
-the store lacks at call time.  Its negation is the hypothesis of `C03_get_set_partial`. -/
-def missingComposite (c : OpCall) (σ : Store) : Bool :=
-  match entries c with
-  | some es => es.any fun e => e.guarded && ((loc σ e.qn).bind σ).isNone
-  | none => false
+/-! ### The classes of (state tuple, store) pairs -/
 
-/-- The finding class `state_entry_indexes_by_state_entry`: the location of some entry depends on a variable that
-the same state tuple rewrites (`('dd[x]', 'x')`).  Its negation is a hypothesis of `C03_set_get_partial`. -/
-def dependentEntries (es : List Entry) : Bool :=
-  es.any fun e => (indexSyms e.qn).any fun k => (es.map (·.qn)).contains (.sym k)
+/-- Finding class `missing_composite_written_back`: an entry cannot be read at call time — the slot of a guarded
+(composite) entry is empty, or the access path raises (unbound / missing / non-object base): the guarded read yields
+`Undefined`, the write-back creates the slot or raises. -/
+def missingAt (σ : Store) (es : List Entry) : Bool :=
+  es.any fun e => match resolve σ e.qn with
+    | .slot l => e.guarded && (σ l).isNone
+    | .undefBase _ => false
+    | .fail => true
 
-/-- Two entries of the tuple denote the same location in `σ` (`dd[x]` and `dd[0]` with `x = 0`), or one cannot be
-located.  Its negation is the other hypothesis of `C03_set_get_partial`. -/
-def aliasedEntries (es : List Entry) (σ : Store) : Bool :=
-  match es.mapM (fun e => loc σ e.qn) with
-  | some ls => !nodupB ls
-  | none => true
+/-- Finding class `composite_base_undefined`: the base of an entry holds the `Undefined` placeholder. -/
+def undefBaseAt (σ : Store) (es : List Entry) : Bool :=
+  es.any fun e => match resolve σ e.qn with
+    | .undefBase _ => true
+    | _ => false
+
+def slotsOf (σ : Store) (es : List Entry) : List QN := es.flatMap fun e => (resolve σ e.qn).slots
+
+/-- Finding class `state_entry_indexes_by_state_entry` (generalised): resolving some entry reads a location that the same
+tuple writes (a subscript variable, a base variable or a base slot that is itself an entry). -/
+def dependentAt (σ : Store) (es : List Entry) : Bool :=
+  es.any fun e => (reads σ e.qn).any fun l => (slotsOf σ es).contains l
+
+/-- Class `aliased_state_entries`: two entries denote the same location at call time. -/
+def aliasedAt (σ : Store) (es : List Entry) : Bool := !nodupB (slotsOf σ es)
+
+inductive StateClass where
+  | missingComposite | undefinedBase | dependent | aliased | lawful
+  deriving DecidableEq, Repr, Inhabited
+
+/-- Every (state tuple, store) pair is in exactly one class; the laws are proved for `lawful`. -/
+def classify (σ : Store) (es : List Entry) : StateClass :=
+  if undefBaseAt σ es then .undefinedBase
+  else if missingAt σ es then .missingComposite
+  else if dependentAt σ es then .dependent
+  else if aliasedAt σ es then .aliased
+  else .lawful
+
+/-- The classes read off the names alone (no store): what `./check C03` prints as the reason why a generated program
+can leave the lawful class.  `composite` = some entry is guarded (may be missing / have an undefined base at run time);
+`dependent` = the path of an entry goes through a variable or a proper prefix path that is itself an entry. -/
+def pathSyms : QN → List QN
+  | .sym _ => []
+  | .lit _ _ => []
+  | .attr b _ => b :: pathSyms b
+  | .sub b i => b :: (match i with | .sym k => [.sym k] | _ => []) ++ pathSyms b
+
+def staticDependent (es : List Entry) : Bool :=
+  es.any fun e => (pathSyms e.qn).any fun p => (es.map (·.qn)).contains p
+
+def staticComposite (es : List Entry) : Bool := es.any (·.guarded)
+
+/-- Kept for the evidence of earlier rounds: the subscript variables of a path. -/
+def indexSyms : QN → List String
+  | .sym _ => []
+  | .lit _ _ => []
+  | .attr b _ => indexSyms b
+  | .sub b i => (match i with | .sym k => [k] | _ => []) ++ indexSyms b
 
 end Malt.Conv.Contract
